@@ -228,13 +228,25 @@ def run(ctx):
                     # the two arithmetics legitimately part ways there; such positions are not values of the tensor
                     wild = lambda v: not math.isfinite(v) or abs(v) > 1e18
                     bad = [j for j in bad if st["mask"][j] or not (wild(mtexec.bits_f64(st["data"][j])) or wild(mtexec.bits_f64(m["data"][j])))]
+                wildrow = lambda row: False
+                if ins["k"] == "matmul":
+                    # a matrix product mixes a row's elements: garbage under the mask that overflowed binary32 (±inf where binary64 still has 1e60) turns 0 · inf into NaN at
+                    # VALID positions of that row — the float width of the model, not the code; rows whose operand holds such a value anywhere are not compared
+                    src = env[ins["r"]]["data"] if ins["r"] < len(env) else [mtexec.bits_f64(x) for x in steps[ins["r"] - len(env)]["data"]]
+                    K, ncol = ins["m"]["shape"]
+                    wildrow = lambda row, src=src, K=K: any((not math.isfinite(v)) or abs(v) > 1e18 for v in src[row * K:(row + 1) * K])
+                    bad = [j for j in bad if not wildrow(j // ncol)]
                 if bad:
                     i = bad[0]
                     valid_bad = [j for j in bad if st["mask"][j]] if len(st["mask"]) == len(st["data"]) else bad
                     ctx.violation("values differ from the reference" + (" at a valid position" if valid_bad else " (only under the mask)"), info,
                                   {"step": n, "instruction": ins, "position": i, "impl": mtexec.bits_f64(st["data"][i]), "model": mtexec.bits_f64(m["data"][i])}, bool(valid_bad), size=len(prog), signature=sig); break
-                if st["zf"] is not None and any(not close(mtexec.bits_f64(x), mtexec.bits_f64(y)) for x, y in zip(st["zf"], m["zf"])):
+                ncol_ = ins["m"]["shape"][1] if ins["k"] == "matmul" else 1
+                if st["zf"] is not None and any(not close(mtexec.bits_f64(x), mtexec.bits_f64(y)) for j, (x, y) in enumerate(zip(st["zf"], m["zf"])) if not wildrow(j // ncol_)):
                     ctx.violation("zero_filled differs from the reference", info, {"step": n, "instruction": ins}, True, size=len(prog), signature={"op": "zero_filled", "fw": fw}); break
+                if ins["k"] == "matmul" and any(wildrow(r_) for r_ in range(max(1, len(st["data"]) // max(1, ncol_)))):
+                    ctx.count("comparison stopped: overflowed garbage under the mask reached a matrix product")
+                    break                                  # from here on the two arithmetics (binary32 / binary64) legitimately differ at valid positions of those rows
 
 
 def replay(ctx, rep):
